@@ -36,7 +36,8 @@ claim("C19", "exploration",
 
 
 claim("C01", "exploration",
-      "Seeded generation of legal acyclic RTL designs (hierarchy, structs, lists, slices, nets, lambdas, loops); each "
+      "Seeded generation of legal acyclic RTL designs (hierarchy incl. lists of lists of components, structs, lists, "
+      "slices, nets, lambdas, loops, variable indices in any position, @s.func helpers, temporaries); each "
       "is simulated under 4 of 13 schedulers (the five real pass groups, the same passes fed their DAG metadata in a "
       "seeded order, and harness-chosen random / adversarial linear extensions of the pass-computed partial order, "
       "with permuted flip-flop blocks) with seeded inputs and faults (input glitches, duplicate evaluations, "
@@ -154,7 +155,8 @@ claim("C08", "exploration",
       "DESIGN.md 4 C08")
 claim("C14", "exploration",
       "After every elaboration of generated hierarchies (nested component lists, port/wire lists, struct signals with "
-      "nested struct and list fields, slices, bits) under 4 orderings incl. a seeded order in which slice/field "
+      "nested struct and list fields, slices, bits; and a hierarchy-only family with interfaces, nested interfaces, "
+      "1-3 dimensional lists of interfaces and components, method ports and pass-through interface connects) under 4 orderings incl. a seeded order in which slice/field "
       "signals are first touched: every object (incl. lazily created field and slice signals) has a unique repr, "
       "eval(repr(o), {'s': top}) is o, parent/host/level/top-level-signal metadata agree with the name, a slice of a "
       "slice is the very object naming the composed bit range, and the name set is the same for all orderings.",
@@ -209,7 +211,7 @@ claim("C15", "exploration",
       "interface and different insides (update blocks, flip-flops, constants connected inside, explicit U / RD / WR "
       "constraints, nested children, lists), plus hand-written interface and CL families (interfaces, update_once "
       "blocks, non-blocking methods, M constraints), are mutated by histories of 1..6 replace_component / "
-      "replace_component_with_obj operations on fields and list elements at depth 1..2 incl. re-replacement. After "
+      "replace_component_with_obj operations on fields and elements of 1-2 dimensional lists at depth 1..2 incl. re-replacement. After "
       "EVERY operation the mutated design is compared with a twin built from scratch from a rewritten spec: component, "
       "signal and named-object name sets with kinds, nets with writers, adjacency, update blocks with read / write / "
       "call sets, all four explicit-constraint tables, update_ff / update_once sets (all keyed by names); the C14 name "
@@ -224,13 +226,13 @@ claim("C15", "exploration",
 
 claim("C09", "exploration",
       "A legal generated design (which must elaborate under every ordering: the converse direction) receives one "
-      "injected structural defect drawn from 14 kinds: second driver (block+block on the same signal / an overlapping "
+      "injected structural defect drawn from 15 kinds (incl. a constant tied from a forbidden hierarchical position): second driver (block+block on the same signal / an overlapping "
       "slice / a struct field and its parent, block+net, net+net via an extra connect), removed driver of a net, extra "
       "connect closing a loop, read of a child's wire, write of an own InPort / a child's OutPort / a child's Wire, "
       "wrong assignment operator in update / update_ff, <<= to a slice. For each of 4 orderings (statement "
       "permutation, swapped connect sides, object-hash stream) elaborate() must raise an error whose class belongs to "
       "the defect kinds present in the mutated spec; accepting the design or raising an unrelated class is a "
-      "violation. Probes re-check legal shapes that pymtl3 rejected (known finding F10, fixed F21).",
+      "violation. Probes re-check legal shapes that pymtl3 rejected (known findings F10, F31; fixed F21).",
       "The accepted error classes per injected defect are derived from the port-direction table and error texts "
       "transcribed in DESIGN.md Appendix B; where an injection necessarily creates two defect kinds (e.g. writing a "
       "child's OutPort that the child also drives) both classes are accepted. Don't-care shapes are never generated.",
